@@ -107,27 +107,9 @@ def run(ctx):
                         continue  # `is None` tests
                     nuse += 1
                     where = f"{f.module.relpath}:{n.lineno}"
-                    if isinstance(p1, ast.Subscript) and p1.value is n and isinstance(p1.slice, ast.Name) and p1.slice.id == pn:
-                        p2 = pmf.get(id(p1))
-                        other = None
-                        if isinstance(p2, ast.BinOp) and isinstance(p2.op, ast.Mult):
-                            other = p2.right if p2.left is p1 else p2.left
-                        if other is not None and sn in names_in(other):
-                            okcol = (isinstance(other, ast.Call) and getattr(other.func, "attr", "") == "reshape") or isinstance(other, ast.Subscript)
-                            if okcol:
-                                ctx.ok("R1", f"{short}: {src_of(n)}[{pn}] * {src_of(other)}", where)
-                            else:
-                                ctx.violate("R1", f"{short} writer scales the permuted coefficients with `{src_of(other)}`: the sign vector must be a column (one sign per basis function / row)", f, p2)
-                        else:
-                            ctx.violate("R1", f"{short} writer permutes `{src_of(n)}` but does not multiply the rows with the signs of the same conversion", f, p1)
-                    else:
-                        # sign applied before indexing, or no conversion at all
-                        chain = p1
-                        txt = src_of(p1)[:80] if p1 is not None else src_of(n)
-                        if isinstance(p1, ast.BinOp) and sn in names_in(p1):
-                            ctx.violate("R1", f"{short} writer multiplies `{src_of(n)}` with the signs BEFORE permuting the rows (`{txt}`): signs belong to target positions, so a function that is both moved and sign-flipped gets the wrong sign", f, p1)
-                        else:
-                            ctx.violate("R1", f"{short} writer uses `{src_of(n)}` without indexing its rows by the convention permutation (`{txt}`)", f, p1 if p1 is not None else n)
+                    # what is done with the coefficients is decided by R9 (evaluated on symbols, following local names);
+                    # R1 only records that the use sits in a function that holds the (permutation, signs) pair
+                    ctx.ok("R1", f"{short}: `{src_of(n)}` is used where ({pn}, {sn}) of convert_conventions are in scope", where)
             # the basis the permutation is computed for is the caller's (prepared) basis
             btxt = src_of(basis_arg) if basis_arg is not None else ""
             bd = deref(f, basis_arg) if basis_arg is not None else None
@@ -255,7 +237,7 @@ def check_molden_tags(ctx, ce):
     line_var = next((x.id for x in ast.walk(rchain.test) if isinstance(x, ast.Name) and x.id not in ("str",)), None)
     set_var = None
     for x in ast.walk(rchain):
-        if isinstance(x, ast.Call) and isinstance(x.func, ast.Attribute) and x.func.attr == "add" and isinstance(x.func.value, ast.Name):
+        if isinstance(x, ast.Call) and isinstance(x.func, ast.Attribute) and x.func.attr in ("add", "update") and isinstance(x.func.value, ast.Name):
             set_var = x.func.value.id
     if line_var is None or set_var is None:
         ctx.violate("R8", "tag branch of the Molden reader has an unexpected shape", lo, rchain, construct="molden reader tag chain")
@@ -289,3 +271,76 @@ def check_molden_tags(ctx, ce):
         ctx.violate("R8", f"kinds d,f,g = {kinds}: the writer emits {lines}, which the reader takes as pure l = {got}" + (f" (unrecognised: {unknown})" if unknown else "") + f", written pure l = {want} ({len(bad)} of {n} combinations differ)", do, wst[0], construct=f"molden tags {''.join(kinds)}: {lines}")
     else:
         ctx.ok("R8", f"all {n} combinations of Cartesian/pure d, f, g shells: tags written by dump_one are read back as the same kinds", f"{do.module.relpath}:{wst[0].lineno}")
+
+
+# What each tag line of the Molden format means (Molden format description, section "[5D] [7F] [9G]": by default
+# 6d / 10f / 15g Cartesian functions; [5D] and [5D7F]: 5 d and 7 f; [5D10F]: 5 d and 10 f; [7F]: 6 d and 7 f;
+# [9G]: 9 g).  Value = angular momenta (2..4) that become pure.
+MOLDEN_TAG_MEANING = {"[5D]": {2, 3}, "[5D7F]": {2, 3}, "[5D10F]": {2}, "[7F]": {3}, "[9G]": {4}}
+
+
+def check_molden_reader_tags(ctx, ce, rid):
+    """The tag branch of the Molden reader, evaluated on every tag line of the format (in the spellings programs
+    use), marks exactly the angular momenta the format assigns to that tag."""
+    import re
+
+    from ..consteval import NotConstant, _Env
+
+    prog = ctx.prog
+    lo = prog.func("iodata.formats.molden._load_low")
+    tagre = re.compile(r"\[\d+[dfg]", re.I)
+    rchain = None
+    for n in lo.own_nodes():
+        if isinstance(n, ast.If) and any(isinstance(x, ast.Constant) and isinstance(x.value, str) and tagre.match(x.value) for x in ast.walk(n.test)):
+            par = prog.parents(lo).get(id(n))
+            if not (isinstance(par, ast.If) and n in par.orelse):
+                rchain = n
+    if rchain is None:
+        raise AnalysisError("tag branch of molden._load_low not found")
+    line_var = next((x.id for x in ast.walk(rchain.test) if isinstance(x, ast.Name) and x.id not in ("str",)), None)
+    set_var = None
+    for x in ast.walk(rchain):
+        if isinstance(x, ast.Call) and isinstance(x.func, ast.Attribute) and x.func.attr in ("add", "update") and isinstance(x.func.value, ast.Name):
+            set_var = x.func.value.id
+    if line_var is None or set_var is None:
+        raise AnalysisError("tag branch of the Molden reader has an unexpected shape")
+    # how the loop normalises the line before the chain (e.g. next(lit).lower().strip()): evaluated on the raw line
+    norm = None
+    for n in lo.own_nodes():
+        if isinstance(n, ast.Assign) and len(n.targets) == 1 and isinstance(n.targets[0], ast.Name) and n.targets[0].id == line_var:
+            if any(isinstance(x, ast.Call) and isinstance(x.func, ast.Name) and x.func.id == "next" for x in ast.walk(n.value)):
+                norm = n.value
+    bad = []
+    n_ok = 0
+    for tag, want in MOLDEN_TAG_MEANING.items():
+        for raw in (tag, tag.lower(), tag + "  ", " " + tag):
+            text = raw
+            if norm is not None:
+                class _Sub(ast.NodeTransformer):
+                    def visit_Call(self, node):
+                        if isinstance(node.func, ast.Name) and node.func.id == "next":
+                            return ast.Constant(raw + "\n")
+                        return self.generic_visit(node)
+                import copy as _copy
+
+                expr = ast.fix_missing_locations(_Sub().visit(_copy.deepcopy(norm)))
+                try:
+                    text = _Env(ce, lo.module, lo, {}).eval(expr)
+                except NotConstant as exc:
+                    raise AnalysisError(f"line normalisation of the Molden section loop is not constant-evaluable: {exc}") from exc
+            got = set()
+            try:
+                _Env(ce, lo.module, lo, {line_var: text, set_var: got}).run([rchain])
+            except NotConstant as exc:
+                bad.append((raw, f"not recognised as a tag ({exc})"))
+                continue
+            got = {l for l in got if l in (2, 3, 4)}
+            if got != want:
+                bad.append((raw, f"marks l = {sorted(got)} as pure, the format says {sorted(want)}"))
+            else:
+                n_ok += 1
+    if bad:
+        raw, why = bad[0]
+        ctx.violate(rid, f"Molden tag line {raw!r}: {why} ({len(bad)} tag spelling(s) differ)", lo, rchain, construct=f"molden reader tag {raw.strip()!r}: {why}"[:160])
+    else:
+        ctx.ok(rid, f"{n_ok} tag lines ([5D], [5D7F], [5D10F], [7F], [9G] in {n_ok // len(MOLDEN_TAG_MEANING)} spellings each) are read with the meaning the format gives them", f"{lo.module.relpath}:{rchain.lineno}")
